@@ -287,6 +287,25 @@ static bool irename(IMsg & m, const std::string & o, const std::string & n)
    if (g >= 0) m.fields[g] = moved; else m.fields.push_back(moved);
    return true;
 }
+static bool imove(IMsg & m, bool front, const std::string & name)
+{
+   int f = ifind(m, name);
+   if (f < 0) return false;
+   IField fld = m.fields[f];
+   m.fields.erase(m.fields.begin()+f);
+   if (front) m.fields.insert(m.fields.begin(), fld); else m.fields.push_back(fld);
+   return true;
+}
+static bool icopy_name(IMsg & m, const std::string & o, const std::string & n)
+{
+   if (o == n) return true;
+   int f = ifind(m, o);
+   if (f < 0) return false;
+   IField c = m.fields[f]; c.name = n;
+   int g = ifind(m, n);
+   if (g >= 0) m.fields[g] = c; else m.fields.push_back(c);
+   return true;
+}
 static void istrip(IMsg & m)   // what a serialisation round trip keeps
 {
    for (size_t i=0; i<m.fields.size(); )
@@ -454,6 +473,9 @@ static void run_case(int k, const std::string & head, const std::string & body)
             else if ((c == "cl")&&(a.size() == 2)) {IREG(1).fields.clear(); iok = true;}
             else if ((c == "cp")&&(a.size() == 3)) {IMsg tmp = IREG(2); IREG(1) = tmp; iok = true;}
             else if ((c == "u")&&(a.size() == 2))  {istrip(IREG(1)); iok = true;}
+            else if ((c == "mf")&&(a.size() == 3)) iok = imove(IREG(1), true, SN(2));
+            else if ((c == "mb")&&(a.size() == 3)) iok = imove(IREG(1), false, SN(2));
+            else if ((c == "cn")&&(a.size() == 4)) iok = icopy_name(IREG(1), SN(2), SN(3));
          }
          if ((c == "w")&&(a.size() == 3)) {REG(1).what = (uint32) strtoul(a[2].c_str(), NULL, 10); ok = true;}
          else if (((c == "a")||(c == "p"))&&(a.size() == 5)) ok = typed_op(REG(1), c[0], FN(2), a[3], unhex(a[4]), 0, false);
@@ -484,6 +506,9 @@ static void run_case(int k, const std::string & head, const std::string & body)
             Message tmp;
             if (tmp.UnflattenFromBytes(fs ? &buf[0] : NULL, fs).IsOK()) {m = tmp; unshare(m); ok = true;}
          }
+         else if ((c == "mf")&&(a.size() == 3)) ok = REG(1).MoveNameToFront(FN(2)).IsOK();
+         else if ((c == "mb")&&(a.size() == 3)) ok = REG(1).MoveNameToBack(FN(2)).IsOK();
+         else if ((c == "cn")&&(a.size() == 4)) {Message & m = REG(1); ok = m.CopyName(FN(2), m, FN(3)).IsOK(); if (ok) unshare(m);}
          else if ((c == "um")&&(a.size() == 3))
          {
             // flatten, mutate the bytes deterministically, parse what results (only compared with the model's parser)
